@@ -77,7 +77,8 @@ Table(c) ==
       proto |-> [kind \in ProtoKinds |-> FromProto(kind)],
       lens |-> [L \in AllLens |-> ShardSize(L, Data(c))],
       peerof |-> [pub \in 1..(n + 1) |-> [i \in 1..n |-> PeerOfShard(pub - 1, i - 1)]],
-      sched |-> [NP \in 2..10 |-> [d |-> SchedData(NP), p |-> SchedParity(NP),
+      newsched |-> [kind \in NewSchedulerKinds |-> NewSchedulerOutcome(kind)],
+      sched |-> [NP \in SchedNPs |-> [d |-> SchedData(NP), p |-> SchedParity(NP),
                                    build |-> BuildThreshold(NP), recv |-> ReceiveThreshold(NP)]]]
 
 VARIABLE todo
